@@ -177,6 +177,15 @@ def main():
     # prefix-matching finding recorded under C06 and is not probed here)
     cand_b |= {pre + n for n in sorted(lis_bkg) for pre in ("x", " ", "my_")}
     cand_d |= {pre + n for n in sorted(lis_dbd) for pre in ("x", " ", "A=100:")}
+    # published names cut short by one or two characters ('Pa234' for 'Pa234m', 'Ta180m-B' for 'Ta180m-B-', 'Mo10' for 'Mo100'): a name
+    # nobody publishes, unless the shorter form is itself published
+    pub_b = set(n for n, _ in readme_bkg) | set(lis_bkg) | set(l.split("+")[0] for l in lis_bkg)
+    pub_d = set(n for n, _ in readme_dbd) | set(lis_dbd) | set(l.split("+")[0] for l in lis_dbd)
+    # (a candidate that merely extends a published name is the prefix matching recorded under C06 and is not probed)
+    ext = lambda c, pub: any(c.startswith(q) and c != q for q in pub)
+    cand_b |= {n[:-k] for n in pub_b for k in (1, 2) if len(n) - k >= 3 and n[:-k] not in pub_b and not ext(n[:-k], pub_b)}
+    cand_d |= {n[:-k] for n in pub_d for k in (1, 2) if len(n) - k >= 3 and n[:-k] not in pub_d and not ext(n[:-k], pub_d)}
+    cand_b.add("Ta180m")
     cfile = tempfile.NamedTemporaryFile("w", suffix=".cand", delete=False, dir=bdir)
     for c in sorted(cand_b):
         cfile.write("B %s\n" % c)
@@ -208,6 +217,9 @@ def main():
             for n in sorted((rd | ls_) - ac):
                 why = [a["why"] for a in cat["accepted"] if a["name"] == n]
                 chk.violation("catalogue|%s|published-not-accepted|%s" % (catname, n), "published name %s is refused by the generator: %s" % (n, why), {"name": n})
+            for a in cat["accepted"]:
+                if a["accepted"] and a["why"] == "EMPTY-EVENTS" and a["name"].split("+")[0] in (rd | ls_) and (a["kind"] == "B") == (catname == "background"):
+                    chk.violation("catalogue|%s|published-generates-nothing|%s" % (catname, a["name"]), "the published name %s initialises but every event is empty" % a["name"], {"name": a["name"]})
             for n in sorted(ac - (rd | ls_)):
                 chk.violation("catalogue|%s|accepted-not-published|%s" % (catname, n),
                               "the generator accepts and generates '%s', which neither the README appendix nor the .lis file publishes" % n, {"name": n})
